@@ -44,6 +44,13 @@ PoolE(ids) ==
               rk \in {0, 1}, cd \in Cond3, lg \in {"on", "off"} } : i \in ids }
 PoolEq == PoolE({1, 2})
 
+\* stop / reset on rules that may be sampled out: a skipped rule contributes nothing, not even its flags
+PoolF(ids, conds) ==
+  UNION { { R(i, rk, TRUE, cd, AddOwn(i), "", <<>>, "none", rs, st, sm) :
+              rk \in {0, 1}, cd \in conds, rs \in BOOLEAN, st \in BOOLEAN, sm \in {"none", "0", "100"} } : i \in ids }
+PoolFq == PoolF({1, 2}, {<<{}, FALSE>>})
+PoolFt == PoolF({1, 2, 3}, {<<{}, FALSE>>})
+
 Q(k, c) == [k |-> k, c |-> c]
 Proxy(c) == << Q("status", 0), Q("status", c), Q("headers", c), Q("body", c), Q("log", c) >>
 ProxyHandoff(c) == << Q("status", 0), Q("handoff", 0), Q("headers", c), Q("status", c), Q("body", c), Q("log", c) >>
